@@ -1340,3 +1340,82 @@ Theorem export_for_example :
   zscript2 f_for [5%Z; 3%Z] = Some [23%Z] /\ zgraph2 [] g_for [5%Z; 3%Z] = Some [23%Z] /\
   zscript2 f_for [5%Z; 0%Z] = Some [5%Z] /\ zgraph2 [] g_for [5%Z; 0%Z] = Some [5%Z].
 Proof. vm_compute. repeat split. Qed.
+
+(* ---- semantics of the option paths (partial) ------------------------------------------------------------------ *)
+(* inline_const: the expression printed for an inlined constant evaluates to the tensor the dropped Constant node
+   denotes, for the literals Script.Syntax can express (INT64 scalar, finite FLOAT scalar, INT64 vector); the only
+   assumption relates the two encodings of a tensor attribute (raw bytes in the graph, values in a script literal). *)
+Definition script_lit (l : ilit) : option lit :=
+  match l with IInt z => Some (LInt z) | IFloat b => Some (LFloat b) | IInts zs => Some (LInts zs) | IFloats _ => None end.
+
+Lemma float_expr_finite : forall b, nonfinite_b b = false -> float_expr b = ELit (LFloat b).
+Proof.
+  intros b H. unfold float_expr, is_nan_bits. unfold nonfinite_b in H. apply Z.leb_gt in H.
+  assert (Z.ltb 2139095040 (Z.modulo b 2147483648) = false) as -> by (apply Z.ltb_ge; lia).
+  destruct (Z.eqb b 2139095040) eqn:E1; [apply Z.eqb_eq in E1; subst b; vm_compute in H; discriminate|].
+  destruct (Z.eqb b 4286578688) eqn:E2; [apply Z.eqb_eq in E2; subst b; vm_compute in H; discriminate|].
+  reflexivity.
+Qed.
+
+Section InlineSem.
+  Variable V : Type.
+  Variable sem : string -> string -> list (string * attrv) -> list (option V) -> option (list V).
+  Variable globals : list (string * lit).
+
+  Theorem inline_literal_denotes : forall fx a l sl v (pe : penv V),
+    fx_finite fx = true -> const_lit_fx fx a = Some l -> script_lit l = Some sl ->
+    sem "" "Constant" [("value", lit_attr sl)] [] = sem "" "Constant" [("value", a)] [] ->      (* the two encodings denote the same tensor *)
+    sem "" "Constant" [("value", a)] [] = Some [v] ->
+    eval_expr V sem globals pe (ilit_expr l) = Some (PS V sl v).
+  Proof.
+    intros fx a l sl v pe Hfin Hc Hs Henc Hv. unfold const_lit_fx in Hc. destruct (const_lit a) as [l0|]; [|discriminate].
+    destruct (lit_okb fx l0) eqn:Hok; [|discriminate]. inversion Hc; subst l0. clear Hc.
+    assert (Hev : forall s, s = sl -> eval_expr V sem globals pe (ELit s) = Some (PS V sl v)).
+    { intros s ->. cbn [PySem.eval_expr]. unfold const_val. rewrite Henc, Hv. reflexivity. }
+    destruct l as [z|b|zs|bs]; cbn [script_lit] in Hs; inversion Hs; subst sl; cbn [ilit_expr].
+    - apply Hev. reflexivity.
+    - rewrite float_expr_finite; [apply Hev; reflexivity|].
+      unfold lit_okb in Hok. rewrite Hfin in Hok. cbn [andb] in Hok. apply andb_true_iff in Hok. destruct Hok as [Hok _].
+      apply negb_true_iff in Hok. exact Hok.
+    - apply Hev. reflexivity.
+  Qed.
+End InlineSem.
+
+(* use_operators: the operator expression printed for a two-input node evaluates to what the call of that operator
+   evaluates to (Script/PySem.v reads `a <op> b` through the converter's operator table primop_map), for operands that
+   are not both Python scalars (two inlined literals: Python arithmetic, which PySem leaves undefined) *)
+Section OperatorSem.
+  Variable V : Type.
+  Variable sem : string -> string -> list (string * attrv) -> list (option V) -> option (list V).
+  Variable globals : list (string * lit).
+
+  Theorem binop_denotes_call : forall cls opname a b (pe : penv V) va vb,
+    lookup_assoc cls primop_map = Some opname -> String.eqb cls "Mod" = false ->
+    eval_expr V sem globals pe a = Some va -> eval_expr V sem globals pe b = Some vb -> is_scalar V va && is_scalar V vb = false ->
+    eval_expr V sem globals pe (EBin cls a b) = eval_expr V sem globals pe (ECall (COp opname) [Some a; Some b] []).
+  Proof.
+    intros cls opname a b pe va vb Hop Hmod Ha Hb Hsc. cbn [PySem.eval_expr]. rewrite Hop, Ha, Hb, Hsc.
+    unfold binop_attrs. rewrite Hmod. reflexivity.
+  Qed.
+
+  Theorem cmpop_denotes_call : forall cls opname a b (pe : penv V) va vb,
+    lookup_assoc cls primop_map = Some opname -> String.eqb opname "NotEqual" = false ->
+    eval_expr V sem globals pe a = Some va -> eval_expr V sem globals pe b = Some vb -> is_scalar V va && is_scalar V vb = false ->
+    eval_expr V sem globals pe (ECmp cls a b) = eval_expr V sem globals pe (ECall (COp opname) [Some a; Some b] []).
+  Proof.
+    intros cls opname a b pe va vb Hop Hne Ha Hb Hsc. cbn [PySem.eval_expr]. rewrite Hop, Ha, Hb, Hsc, Hne. reflexivity.
+  Qed.
+End OperatorSem.
+
+(* every entry of the use_operators table found in the source prints an operator that the converter reads back as the
+   entry's own ONNX operator (none of them is Mod or NotEqual) -- but for the dead entry "Lesser", which names no operator *)
+Definition operator_entry_okb (e : string * string) : bool :=
+  match pyop (snd e) with
+  | Some (_, cls) => match lookup_assoc cls primop_map with
+                     | Some o => (String.eqb o (fst e) || String.eqb (fst e) "Lesser") && negb (String.eqb cls "Mod") && negb (String.eqb o "NotEqual")
+                     | None => false
+                     end
+  | None => false
+  end.
+Theorem operator_table_reads_back : forallb operator_entry_okb use_operators_table = true.
+Proof. vm_compute. reflexivity. Qed.
